@@ -31,6 +31,8 @@ def all_paths(maxdepth):
 
 
 def spec_overlap(ps):
+    # (a path is the sequence of its non-empty segments: //f and /f/ are /f)
+    ps = [[x for x in p if x] for p in ps]
     return any(p != q and q[:len(p)] == p for p in ps for q in ps)
 
 
@@ -137,7 +139,9 @@ def run(ctx):
         pathsets = [[["f"], ["f", "g"]], [["f"], ["x"], ["f", "g"]], [["f", "g"], ["x"], ["f"]], [["x"], ["f", "g", "x"], ["f", "g"]],
                     [["f"], ["fg"]], [["f", "g"], ["fg"], ["x"]], [["f"], ["x"], ["g", "f"]], [["f", "g"], ["f", "x"], ["g"]],
                     [["f", "g"], ["x"], ["fg"], ["f"]], [["f", "g", "x"], ["x"], ["g"], ["f"]],
-                    [["f"], ["f", "g"], ["f.b"]], [["f.b"], ["f", "g"], ["f"]], [["x", "f"], ["x", "f-"], ["x", "f", "g"]]]
+                    [["f"], ["f", "g"], ["f.b"]], [["f.b"], ["f", "g"], ["f"]], [["x", "f"], ["x", "f-"], ["x", "f", "g"]],
+                    # spellings with repeated / trailing separators: the path of the segments that are not empty
+                    [["", "f"], ["f", "g"]], [["f", ""], ["x"], ["f", "g"]], [["f", "", "g"], ["f"]], [["x"], ["", "", "f", "g", ""], ["", "f"]]]
         if thorough:
             pool = all_paths(2) + [["f", "g", "x"], ["f", "g", "fg"]]
             for _ in range(60):
